@@ -72,3 +72,51 @@ Example C17_example :
   keep_spec {| p_rate := 1 # 2; p_ignore := false; p_skipped := false; p_copy := false |} false false (3 # 4) = DAbort /\
   keep_spec {| p_rate := 0; p_ignore := false; p_skipped := false; p_copy := false |} true true 0 = DAbort.
 Proof. repeat split. Qed.
+
+(** ---- non-vacuity per theorem (wp-audit) ---- *)
+Definition c17_out : ocfg := {| o_alias := U"send"; o_static := true; o_handler := None; o_fail := true; o_default := VNone |}.
+Definition c17_op (body : code) : opdef := {| op_class := U"Op"; op_classlevel := false; op_extractor := XNone; op_body := body |}.
+Definition c17_P (ignore : bool) : prm := {| p_rate := 1 # 2; p_ignore := ignore; p_skipped := false; p_copy := false |}.
+Definition c17_body : code := Out c17_out (Ret (Lit VNone)) [Lit (VInt 1)] [] (Ret (Var 0)).
+
+(** C17_keep_policy (premise: no recording active), rate 1/2: the same operation is kept when the draw is 1/2,
+    dropped when it is 3/4 (one draw consumed each time), kept without a draw when it forces sampling, dropped
+    without a draw when it discards *)
+Example C17_keep_policy_nonvacuous :
+  let run draw body := let '(ob, w') := record_run (fun _ => draw) true (c17_P false) (c17_op body) false fresh_rst fresh_world in
+                       (decision_of 0 (ob_cass ob), w_dpos w') in
+  active fresh_rst = false /\
+  run (1 # 2) c17_body = (DSave, 1%nat) /\ run (3 # 4) c17_body = (DAbort, 1%nat) /\
+  run (3 # 4) (Force c17_body) = (DSave, 0%nat) /\ run (0 # 1) (Force (Discard c17_body)) = (DAbort, 0%nat).
+Proof. vm_compute. repeat split; reflexivity. Qed.
+
+(** C17_ignore_forcing (premises: the class ignores enforced sampling; flag clear on entry), on a program that
+    does force - from inside an intercepted body too - while a recording is active; without the option the same
+    program sets the flag *)
+Example C17_ignore_forcing_nonvacuous :
+  let c := Force (Out c17_out (Force (Ret (Lit VNone))) [] [] (Ret (Var 0))) in
+  let s := mk_rst true true false [] false in
+  p_ignore (c17_P true) = true /\ force s = false /\
+  force (snd (fst (rec_exec (c17_P true) c [] s))) = false /\ force (snd (fst (rec_exec (c17_P false) c [] s))) = true.
+Proof. vm_compute. repeat split; reflexivity. Qed.
+
+(** C17_force_does_not_leak / C17_reproducible (premise: idle; pointwise equal draw streams): a forcing run
+    followed by a run that does not force - the second one is decided by its draw (3/4 > 1/2: dropped) *)
+Example C17_force_does_not_leak_nonvacuous :
+  let rs := [RRecord true (c17_P false) (c17_op (Force c17_body)) false; RRecord true (c17_P false) (c17_op c17_body) false] in
+  let d1 := fun _ : nat => 3 # 4 in
+  let d2 := fun n : nat => if Nat.eqb n n then 3 # 4 else 0 in
+  idle fresh_rst /\ (forall n, d1 n = d2 n) /\
+  map (fun ob => decision_of 0 (ob_cass ob)) (run_history d1 rs fresh_rst fresh_world) = [DSave; DAbort] /\
+  map (fun ob => force (ob_state ob)) (run_history d1 rs fresh_rst fresh_world) = [false; false].
+Proof.
+  cbv zeta. split; [repeat split|]. split.
+  - intros n. rewrite Nat.eqb_refl. reflexivity.
+  - vm_compute. repeat split; reflexivity.
+Qed.
+
+(** C17_fraction (premise p < q): rate 1/3 over 10 equally spaced draws keeps 4 = floor(10/3) + 1 *)
+Example C17_fraction_nonvacuous :
+  (Zpos 1 < Zpos 3)%Z /\
+  length (filter (fun k => Qle_bool (Z.of_nat k # 10) (1 # 3)) (seq 0 10)) = 4%nat.
+Proof. split; reflexivity. Qed.
